@@ -1,18 +1,33 @@
 import CE.Cbe.RoundTrip
+import CE.Basic.FloatProofs
 import CE.Cbe.Minimal
 import CE.Cbe.Progress
 import CE.Canon
 /-
   Stream-level CBE round trip for the structural fragment of the event alphabet: containers,
   Booleans, null, padding, comments, integers of every width and sign (all three integer event
-  forms), big integers up to 8192 bits, identifiers (markers, references, records, record types), UIDs, strings and resource
+  forms), big integers up to 8192 bits, binary floats of every kind except doubles in the float32
+  subnormal range, identifiers (markers, references, records, record types), UIDs, strings and resource
   identifiers of any length and typed arrays of byte-multiple elements sent whole (short form
   and chunk-header form) — streams of any length and
-  nesting.  What is NOT in the fragment: floats, decimals, times,
+  nesting.  What is NOT in the fragment: float32-subnormal doubles, decimal floats, times,
   bit arrays, media, custom types and arrays sent in several chunks (their per-event behaviour is tied by the CBE.ENC / CBE.DEC correspondence and
   the round-trip oracle of `bin/check C01`).
 -/
 namespace CE.Cbe
+
+open CE.F in
+/-- floats whose narrowing (if any) stays in the float32 normal range -/
+def floatOK (b : Nat) : Bool :=
+  decide (b < 2 ^ 64) && !(decide (874 ≤ exp64 b) && decide (exp64 b < 897) && (exactF32? b).isSome)
+
+open CE.F in
+def renormFloat (b : Nat) : List Ev :=
+  if isInf64 b then [.dfloat (if sign64 b == 1 then .negInf else .inf)]
+  else if isNaN64 b then [.dfloat (if quiet64 b then .nan else .snan)]
+  else if isZero64 b then (if sign64 b == 1 then [.negInt 0] else [.int 0])
+  else [.float b]
+
 
 /-- typed arrays whose elements are whole bytes -/
 def typedArr : ArrT → Bool
@@ -25,6 +40,7 @@ def simple : Ev → Bool
   | .list | .map | .edge | .node | .endContainer => true
   | .posInt n | .negInt n => decide (n < 2 ^ 64)
   | .int i => decide (-(2 : Int) ^ 63 ≤ i ∧ i < 2 ^ 63)
+  | .float b => floatOK b
   | .bigInt (some i) => decide (i.natAbs < 2 ^ 8192)
   | .marker id | .refLocal id | .record id | .recordType id =>
     decide (0 < id.length ∧ id.length ≤ maxIdentifierLength)
@@ -40,6 +56,7 @@ def renorm : Ev → List Ev
   | .bigInt none => [.null]
   | .bigInt (some i) =>
     if i.natAbs < 2 ^ 64 then (if 0 ≤ i then [renormPos i.natAbs] else [renormNeg i.natAbs]) else [.bigInt (some i)]
+  | .float b => renormFloat b
   | .posInt n => [renormPos n]
   | .negInt n => [renormNeg n]
   | .int i => if 0 ≤ i then [renormPos i.toNat] else [renormNeg (-i).toNat]
@@ -218,6 +235,155 @@ theorem lift_bind_ok {α β} (x : Except DecErr β) (b : β) (g : β → α) (hx
     lift (do let p ← x; pure (g p)) = .ok (g b) := by
   subst hx; rfl
 
+open CE.F in
+theorem decodeDecimal_special (c : UInt8) (hc : 128 ≤ c.toNat) (rest : Bytes) :
+    decodeDecimal (c :: 0 :: rest) =
+      (if c.toNat - 128 = 2 then .ok (.dfloat .inf, rest)
+       else if c.toNat - 128 = 3 then .ok (.dfloat .negInf, rest)
+       else if c.toNat - 128 = 0 then .ok (.dfloat .nan, rest)
+       else if c.toNat - 128 = 1 then .ok (.dfloat .snan, rest)
+       else decodeDecimal (c :: 0 :: rest)) := by
+  have hraw : unulebRaw (c :: 0 :: rest) = some (c.toNat - 128, 2, rest) := by
+    simp [unulebRaw]
+    omega
+  have hu : unuleb (c :: 0 :: rest) = .ok (c.toNat - 128, 2, rest) := by
+    unfold unuleb
+    rw [hraw]
+    have : c.toNat - 128 < 2 ^ 64 := by have := c.toNat_lt; omega
+    simp [this]
+  by_cases h2 : c.toNat - 128 = 2
+  · simp [h2, decodeDecimal, hu]
+  by_cases h3 : c.toNat - 128 = 3
+  · simp [h3, decodeDecimal, hu]
+  by_cases h0 : c.toNat - 128 = 0
+  · simp [h0, decodeDecimal, hu]
+  by_cases h1 : c.toNat - 128 = 1
+  · simp [h1, decodeDecimal, hu]
+  simp [h2, h3, h0, h1]
+
+
+open CE.F in
+theorem canonNaN_of_not_nan (b : Nat) (h : isNaN64 b = false) : canonNaN b = b := by
+  unfold canonNaN; simp [h]
+
+theorem leNat_leBytes_lt (k n : Nat) (h : n < 256 ^ k) : leNat (leBytes k n) = n := by
+  rw [leNat_leBytes, Nat.mod_eq_of_lt h]
+
+open CE.F in
+theorem decodeOne_encFloat (b : Nat) (hok : floatOK b = true) (rest : Bytes) :
+    encFloat b ≠ [] ∧ decodeOne (encFloat b ++ rest) = .ok (renormFloat b, rest) := by
+  simp only [floatOK, Bool.and_eq_true, decide_eq_true_eq, Bool.not_eq_true'] at hok
+  obtain ⟨hb, hsub⟩ := hok
+  unfold encFloat renormFloat
+  by_cases hinf : isInf64 b = true
+  · simp only [hinf, if_true, encInf]
+    refine ⟨by simp, ?_⟩
+    rw [List.cons_append, decodeOne_byte _ .decimal (by decide)]
+    simp only [decodeTok]
+    by_cases hs : (sign64 b == 1) = true
+    · simp only [hs, if_true, List.cons_append, List.nil_append]
+      have := decodeDecimal_special 0x83 (by decide) rest
+      simp at this
+      rw [lift_bind_ok _ _ (fun p : Ev × Bytes => ([p.1], p.2)) this]
+    · have hs' : (sign64 b == 1) = false := by simpa using hs
+      simp only [hs', Bool.false_eq_true, if_false, List.cons_append, List.nil_append]
+      have := decodeDecimal_special 0x82 (by decide) rest
+      simp at this
+      rw [lift_bind_ok _ _ (fun p : Ev × Bytes => ([p.1], p.2)) this]
+  · have hinf' : isInf64 b = false := by simpa using hinf
+    simp only [hinf', Bool.false_eq_true, if_false]
+    by_cases hnan : isNaN64 b = true
+    · simp only [hnan, if_true, encNaN]
+      refine ⟨by simp, ?_⟩
+      rw [List.cons_append, decodeOne_byte _ .decimal (by decide)]
+      simp only [decodeTok]
+      by_cases hq : quiet64 b = true
+      · simp only [hq, Bool.not_true, Bool.false_eq_true, if_false, if_true, List.cons_append, List.nil_append]
+        have := decodeDecimal_special 0x80 (by decide) rest
+        simp at this
+        rw [lift_bind_ok _ _ (fun p : Ev × Bytes => ([p.1], p.2)) this]
+      · have hq' : quiet64 b = false := by simpa using hq
+        simp only [hq', Bool.not_false, Bool.false_eq_true, if_true, if_false, List.cons_append, List.nil_append]
+        have := decodeDecimal_special 0x81 (by decide) rest
+        simp at this
+        rw [lift_bind_ok _ _ (fun p : Ev × Bytes => ([p.1], p.2)) this]
+    · have hnan' : isNaN64 b = false := by simpa using hnan
+      simp only [hnan', Bool.false_eq_true, if_false]
+      by_cases hz : isZero64 b = true
+      · simp only [hz, if_true, encZero]
+        by_cases hs : (sign64 b == 1) = true
+        · simp only [hs, if_true]
+          have h := decodeOne_encNegInt 0 (by decide) rest
+          simp only [encNegInt, if_true, renormNeg] at h
+          exact ⟨by simp, h⟩
+        · have hs' : (sign64 b == 1) = false := by simpa using hs
+          simp only [hs', Bool.false_eq_true, if_false]
+          have h := decodeOne_encPosInt 0 (by decide) rest
+          simp only [encPosInt, renormPos] at h
+          refine ⟨by simp, ?_⟩
+          simpa [smallIntMax, u8] using h
+      · have hz' : isZero64 b = false := by simpa using hz
+        simp only [hz', Bool.false_eq_true, if_false]
+        cases hx : exactF32? b with
+        | none =>
+          simp only []
+          refine ⟨by simp, ?_⟩
+          rw [List.cons_append, decodeOne_byte _ .f64 (by decide)]
+          simp only [decodeTok]
+          rw [lift_bind_ok _ _ (fun p : Bytes × Bytes => ([Ev.float (canonNaN (leNat p.1))], p.2)) (takeN_leBytes 8 b rest)]
+          simp only []
+          rw [leNat_leBytes_lt 8 b (by simpa using hb), canonNaN_of_not_nan b hnan']
+        | some s =>
+          simp only []
+          -- the narrowing is in the float32 normal range
+          have hrange : 897 ≤ exp64 b ∧ exp64 b ≤ 1150 := by
+            have hsome : (exactF32? b).isSome = true := by simp [hx]
+            unfold exactF32? at hx
+            by_cases h1 : exp64 b = 0 ∨ exp64 b = 2047
+            · simp [h1] at hx
+            · simp only [h1, if_false] at hx
+              by_cases h2 : 897 ≤ exp64 b ∧ exp64 b ≤ 1150
+              · exact h2
+              · simp only [h2, if_false] at hx
+                by_cases h3 : 874 ≤ exp64 b ∧ exp64 b < 897
+                · simp [h3.1, h3.2, hsome] at hsub
+                · simp [h3] at hx
+          have hw := widen_exact_normal b s hb hrange.1 hrange.2 hx
+          have hs32 : s < 2 ^ 32 := by
+            unfold exactF32? at hx
+            have h1 : ¬ (exp64 b = 0 ∨ exp64 b = 2047) := by omega
+            simp only [h1, if_false, hrange.1, hrange.2, and_self, if_true] at hx
+            split at hx
+            · simp only [Option.some.injEq] at hx
+              subst hx
+              have hsg : sign64 b ≤ 1 := by unfold sign64; omega
+              have hm : mant64 b / 2 ^ 29 < 2 ^ 23 := by unfold mant64; omega
+              generalize sign64 b = S at *
+              generalize mant64 b / 2 ^ 29 = q at *
+              generalize exp64 b = E at *
+              clear hw hsub hinf hnan hnan' hz h1
+              omega
+            · simp at hx
+          by_cases h16 : s % 65536 = 0
+          · simp only [h16, if_true]
+            refine ⟨by simp, ?_⟩
+            rw [List.cons_append, decodeOne_byte _ .f16 (by decide)]
+            simp only [decodeTok]
+            rw [lift_bind_ok _ _ (fun p : Bytes × Bytes => ([floatFrom32 (leNat p.1 * 65536)], p.2)) (takeN_leBytes 2 (s / 65536) rest)]
+            simp only [floatFrom32]
+            have h2 : s / 65536 < 256 ^ 2 := by omega
+            rw [leNat_leBytes_lt 2 _ h2]
+            have : s / 65536 * 65536 = s := by omega
+            rw [this, hw, canonNaN_of_not_nan b hnan']
+          · simp only [h16, if_false]
+            refine ⟨by simp, ?_⟩
+            rw [List.cons_append, decodeOne_byte _ .f32 (by decide)]
+            simp only [decodeTok]
+            rw [lift_bind_ok _ _ (fun p : Bytes × Bytes => ([floatFrom32 (leNat p.1)], p.2)) (takeN_leBytes 4 s rest)]
+            simp only [floatFrom32]
+            rw [leNat_leBytes_lt 4 s (by simpa using hs32), hw, canonNaN_of_not_nan b hnan']
+
+
 /-- one decoder step reads back exactly the event (in the decoder's normal form) and leaves
     whatever follows untouched -/
 theorem decodeOne_simple (st : EncSt) (e : Ev) (h : simple e = true) (bs rest : Bytes)
@@ -257,6 +423,10 @@ theorem decodeOne_simple (st : EncSt) (e : Ev) (h : simple e = true) (bs rest : 
     simp [encodeEv] at henc; subst henc
     exact ⟨by simp, by rw [List.singleton_append, decodeOne_byte _ .endC (by decide)]; rfl⟩
   case comment m s => exact (hc m s rfl).elim
+  case float b =>
+    simp only [simple] at h
+    simp [encodeEv] at henc; subst henc
+    exact decodeOne_encFloat b h rest
   case posInt n =>
     simp [simple] at h
     simp [encodeEv] at henc; subst henc
@@ -562,6 +732,19 @@ theorem canon_renorm (e : Ev) (h : simple e = true) (xs ys : List Ev) (hcl : cle
       · simp only [h0, if_false, List.cons_append, List.nil_append]
         rw [canon_arrayBegin1 t s xs hcl htb, hxy]
         simp [canon]
+  case float b =>
+    simp only [renorm, renormFloat]
+    by_cases hinf : CE.F.isInf64 b = true
+    · by_cases hs : (CE.F.sign64 b == 1) = true <;> simp [hinf, hs, canon, canonDF, canonFloat, hxy]
+      all_goals (cases hn : CE.F.isNaN64 b <;> simp_all [CE.F.isNaN64, CE.F.isInf64])
+    · have hinf' : CE.F.isInf64 b = false := by simpa using hinf
+      by_cases hnan : CE.F.isNaN64 b = true
+      · by_cases hq : CE.F.quiet64 b = true <;> simp [hinf', hnan, hq, canon, canonDF, canonFloat, hxy]
+      · have hnan' : CE.F.isNaN64 b = false := by simpa using hnan
+        by_cases hz : CE.F.isZero64 b = true
+        · by_cases hs : (CE.F.sign64 b == 1) = true <;> simp [hinf', hnan', hz, hs, canon, canonFloat, hxy]
+        · have hz' : CE.F.isZero64 b = false := by simpa using hz
+          simp [hinf', hnan', hz', canon, hxy]
   case posInt n =>
     simp only [renorm, renormPos]
     split <;> simp [canon, hxy]
@@ -633,6 +816,9 @@ theorem clean_renorm : ∀ (l : List Ev), l.all simple = true → clean (l.flatM
       all_goals rfl
     case array t c d =>
       simp only [renorm]; repeat' split
+      all_goals rfl
+    case float b =>
+      simp only [renorm, renormFloat]; repeat' split
       all_goals rfl
     case posInt n => simp only [renorm, renormPos]; split <;> rfl
     case bool b => cases b <;> rfl
